@@ -28,6 +28,12 @@ macro_rules! prim { ($($t:ident),*) => { $( impl K for $t { fn describe(&self) -
 prim!(u8, u16, u32, u64, u128, usize, i8, i16, i32, i64, i128, isize, f32, f64, char, bool);
 impl K for &str { fn describe(&self) -> String { format!("P str {:?}", self) } }
 impl<const N: usize> K for &[u8; N] { fn describe(&self) -> String { format!("P bytes {:?}", self) } }
+// the token reaches uint! through a macro_rules fragment: `$e:expr` / `$e:literal` arrive wrapped in an invisible
+// (None-delimited) group, `$($e:tt)*` arrives as the bare token
+macro_rules! via_expr { ($e:expr) => { ruint::uint!{ K::describe(&$e) } } }
+macro_rules! via_lit { ($e:literal) => { ruint::uint!{ K::describe(&$e) } } }
+macro_rules! via_tt { ($($e:tt)*) => { ruint::uint!{ K::describe(&$($e)*) } } }
+macro_rules! via_expr2 { ($e:expr) => { via_expr!(($e)) } }
 '''
 
 NEST = ["( {T} )", "[( {T} )][0]", "{{ [{{ ( {T} ) }}][0] }}", "( ( ( {T} ) ) )"]
@@ -153,7 +159,9 @@ def gen_source(items, stub):
     for it in items:
         i = it["idx"]
         expr = it["form"].replace("{T}", it["tok"])
-        if it["entry"] == "uint":
+        if it["entry"] in ("via_expr", "via_lit", "via_tt", "via_expr2"):
+            m = f'fn m_{i}() -> String {{ {it["entry"]}!({expr if it["entry"] != "via_lit" else it["tok"]}) }}'
+        elif it["entry"] == "uint":
             m = f'fn m_{i}() -> String {{ ruint::uint!{{ K::describe(&{expr}) }} }}'
         else:
             m = f'fn m_{i}() -> String {{ ruint_macro::uint_with_path!{{ [ruint] K::describe(&{expr}) }} }}'
@@ -281,6 +289,11 @@ def main(tier, seed, replay, t0):
     for k, (t, rt) in enumerate(toks):
         form = NEST[0] if k % 5 else NEST[(k // 5) % len(NEST)]
         entry = "uint" if k % 7 else "with_path"
+        if k % 11 == 3:
+            # every 11th token goes through a macro_rules fragment first (invisible groups)
+            entry = ("via_expr", "via_lit", "via_tt", "via_expr2")[(k // 11) % 4]
+            if entry == "via_lit" and not re.fullmatch(r"[0-9][0-9A-Za-z_]*|\"[^\"]*\"|'.'|true|[0-9.]+[0-9a-z_]*", t):
+                entry = "via_expr"
         items.append({"idx": k, "tok": t, "form": form, "entry": entry, "rt": rt})
     obs, stub = observe(items, workdir)
     events = []
